@@ -200,6 +200,7 @@ pub struct Executed {
     pub violations: Vec<Violation>,
     pub stats: RunStats,
     pub counts: Vec<u64>,
+    pub effective: Vec<u64>,
     /// the program that actually ran, explicit (for minimisation)
     pub explicit_prog: Vec<ISpec>,
     pub draws_before_run: u64,
@@ -376,6 +377,7 @@ pub fn execute(sc: &WorldSc, iset: &mut InstructionSet, names: &[String], envelo
         violations,
         stats,
         counts: core.counts,
+        effective: core.effective,
         explicit_prog,
         draws_before_run,
     }
